@@ -31,6 +31,7 @@ type Req struct {
 	MaxTimers  int            `json:"maxTimers,omitempty"`
 	FifoTimers bool           `json:"fifoTimers,omitempty"`
 	KeepStack  bool           `json:"keepStack,omitempty"`
+	ContextScript string      `json:"contextScript,omitempty"` // a script evaluated inside the context before the program
 	Probe      bool           `json:"probe,omitempty"` // install verifProbe(n): records n and the JS stack as out entry ["p", "n|stack"]
 }
 
